@@ -16,6 +16,7 @@ OrderOkOk == "OrderOk" \notin bad
 CompletedOk == "Completed" \notin bad
 NodeAddressOk == "NodeAddress" \notin bad
 TcAddressOk == "TcAddress" \notin bad
+ReadMatchesStoreOk == "ReadMatchesStore" \notin bad
 Progress == TLCSet(1, [TLCGet(1) EXCEPT ![tid] = IF @ < l THEN l ELSE @])
 Post == /\ PrintT(<<"BVPROGRESS", TLCGet(1)>>)
         /\ \A i \in 1 .. Len(Traces) : TLCGet(1)[i] = Len(Traces[i]) + 1
